@@ -325,6 +325,44 @@ func (c13) Gen(r *Rng, tier string, emit func(string, Tok)) {
 		psiMuxerConvention(d)
 		emit("write-wf-muxer-convention", L(I(2), ToTok(*d)))
 	}
+	// 6b. writer: a PMT whose descriptors have bodies of 250..255 bytes (the sum 2 + length reaches the top of a byte),
+	//     in the program loop and in a stream's loop
+	for _, n := range []int{250, 253, 254, 255} {
+		for where := 0; where < 2; where++ {
+			s := psiGenPMT(r, 0)
+			big := &astits.Descriptor{Tag: uint8(0x80 + r.Intn(0x7f)), Length: uint8(n), UserDefined: r.Bytes(n)}
+			pm := s.Syntax.Data.PMT
+			if where == 0 {
+				pm.ProgramDescriptors = append(pm.ProgramDescriptors, big)
+			} else {
+				if len(pm.ElementaryStreams) == 0 {
+					pm.ElementaryStreams = append(pm.ElementaryStreams, &astits.PMTElementaryStream{ElementaryPID: 0x101, StreamType: astits.StreamTypeH264Video})
+				}
+				es := pm.ElementaryStreams[0]
+				es.ElementaryStreamDescriptors = append(es.ElementaryStreamDescriptors, big)
+			}
+			d := psiUnit(s)
+			emit("write-wf-long-descriptor", L(I(2), ToTok(*d)))
+			emit("calc-pmt-length", L(I(5), ToTok(*s.Syntax.Data.PMT)))
+		}
+	}
+	// 6c. parser: an empty stuffing section (table_id 0x72, section_length 0: three bytes) in front of, or between, sections
+	//     of the decoded tables: what follows it is still delivered
+	for k := 0; k < 12*scale; k++ {
+		gi := 2 + r.Intn(4) // SDT, NIT, EIT, TOT
+		a, b := psiGens[gi](r, r.Intn(2)), psiGens[2+r.Intn(4)](r, r.Intn(2))
+		d := psiUnit(a, b)
+		bs := psiRefEncodeUnit(d, nil)
+		one := psiRefEncodeUnit(psiUnit(a), nil)
+		st := []byte{0x72, 0x70, 0x00}
+		var withST []byte
+		if k%2 == 0 {
+			withST = append(append([]byte{bs[0]}, st...), bs[1:]...) // pointer_field, stuffing section, a, b
+		} else {
+			withST = append(append(append([]byte{}, one...), st...), bs[len(one):]...) // pointer_field, a, stuffing section, b
+		}
+		emit("empty-stuffing-section", L(I(1), B(withST)))
+	}
 	// 7. writer outside its domain: nil pointers, other tables, zero length field, odd pointer fields
 	for k := 0; k < 200*scale; k++ {
 		var s *astits.PSISection
